@@ -325,9 +325,16 @@ def use(kind, o):
                                            progress_type="silent")
         return np.nan_to_num(cc, nan=-7.0)
     if kind == "gradient":
+        o["pars"][...] = np.array([[0.3, 0.1]] * 6)          # the caller's table holds these values for this call
         r = oqupy.state_gradient(system=o["psys"], initial_state=o["rho"], target_derivative=np.array([[0.2, 0.1], [0.1, 0.8]], dtype=complex),
                                  process_tensors=[o["pt"]], parameters=o["pars"], progress_type="silent")
         return np.array(r["gradient"])
+    if kind == "gradient-inplace":
+        # the caller updates its own parameter table in place (a gradient-descent step) and asks again
+        o["pars"][...] = np.array([[0.1, 0.4], [0.2, 0.3], [0.3, 0.2], [0.4, 0.1], [0.5, 0.0], [0.6, -0.1]])
+        r = oqupy.state_gradient(system=o["psys"], initial_state=o["rho"], target_derivative=np.array([[0.2, 0.1], [0.1, 0.8]], dtype=complex),
+                                 process_tensors=[o["pt"]], parameters=o["pars"], progress_type="silent")
+        return np.concatenate([np.array(r["gradient"]).reshape(-1), np.array(r["final_state"]).reshape(-1)])
     if kind == "bathcorr-early":
         return np.array([o["bdyn"].correlation(1.3, 0.1, time_2=0.2, progress_type="silent")])
     if kind == "bathcorr-late":
@@ -387,6 +394,8 @@ def reuse_job(case):
             fresh = use(h["arg"], shared_objects())
             got = use(h["arg"], o)
             # PT-TEMPO results are reproducible only up to the SVD gauge: compare at 1e-9
+            if h["arg"] in ("gradient", "gradient-inplace"):
+                snap["pars"] = np.array(o["pars"], copy=True)          # the caller's own update
             if got.shape != fresh.shape or np.max(np.abs(got - fresh)) > 1e-9:
                 out.append({"what": "reuse-differs-from-fresh", "call": idx, "kind": h["arg"]})
                 break
@@ -724,7 +733,7 @@ def run(ctx):
                 raise core.MachineryError(x["detail"])
             ctx.violation("C20:snapshot:%s:%s" % (k, x["what"]), "%s %s: %s" % (k, hd, x), {"snapshot": [c, k]})
     # (C) reuse of shared objects
-    kinds = '{"tempo", "pttempo", "dynamics", "correlations", "gradient", "tebd", "bathcorr-early", "bathcorr-late", "bathocc", "pttempo-nomem-short", "tempo-nomem-long"}'
+    kinds = '{"tempo", "pttempo", "dynamics", "correlations", "gradient", "gradient-inplace", "tebd", "bathcorr-early", "bathcorr-late", "bathocc", "pttempo-nomem-short", "tempo-nomem-long"}'
     ru = ctx.tlc("ObjectGraph", CFG_USE, label="sequences of computations re-using shared objects", workers=2,
                  constants=dict(consts, Devs="{}", MaxOps="2" if quick else "3", UseKinds=kinds))
     for c, mm in zip(ru.cases, core.pmap(reuse_job, ru.cases)):
